@@ -4,6 +4,7 @@ import (
 	"fmt"
 	"go/types"
 	"math/big"
+	"strings"
 
 	"golang.org/x/tools/go/ssa"
 )
@@ -37,6 +38,28 @@ func init() {
 			in.Ex.Observe(in.constStr(a[0], "verifObserve id"), a[1].(*Term))
 			return nil
 		},
+		// verifNative: false here, true in the native twin. Only for code that must differ
+		// between the twins because of the blocking model (chan.go).
+		"verifNative": func(in *Interp, fr *frame, fn *ssa.Function, a []Value) Value { return in.P.False },
+		// verifSkipReplay: native-only marker; unreachable here when guarded by verifNative().
+		"verifSkipReplay": func(in *Interp, fr *frame, fn *ssa.Function, a []Value) Value { return nil },
+		// verifSameValue(a, b): structural equality of two values of the same type as a Bool term,
+		// also for types Go does not let you compare with == (structs with a [0]func() guard).
+		// Pointers, slices, maps, funcs, channels compare by identity. Natively reflect.DeepEqual.
+		"verifSameValue": func(in *Interp, fr *frame, fn *ssa.Function, a []Value) Value {
+			x, ok1 := a[0].(IfaceV)
+			y, ok2 := a[1].(IfaceV)
+			if !ok1 || !ok2 {
+				return in.notEncodable("verifSameValue on %T, %T", a[0], a[1])
+			}
+			if x.T == nil || y.T == nil {
+				return in.P.Bool(x.T == nil && y.T == nil)
+			}
+			if !types.Identical(x.T, y.T) {
+				return in.P.False
+			}
+			return in.sameValue(x.V, y.V)
+		},
 		"verifB2U": func(in *Interp, fr *frame, fn *ssa.Function, a []Value) Value {
 			if p, ok := a[0].(Poison); ok {
 				return in.usePoison(p)
@@ -63,6 +86,62 @@ func init() {
 	hashStubs()
 	containerStubs()
 	bigStubs()
+}
+
+// sameValue is eqValue without Go's comparability rules (slices by identity of backing store and
+// length, funcs/maps/channels by identity).
+func (in *Interp) sameValue(a, b Value) *Term {
+	P := in.P
+	switch x := a.(type) {
+	case ArrayV:
+		y, ok := b.(ArrayV)
+		if !ok || len(x) != len(y) {
+			return P.False
+		}
+		acc := P.True
+		for i := range x {
+			acc = P.And(acc, in.sameValue(x[i], y[i]))
+		}
+		return acc
+	case StructV:
+		y, ok := b.(StructV)
+		if !ok || len(x) != len(y) {
+			return P.False
+		}
+		acc := P.True
+		for i := range x {
+			acc = P.And(acc, in.sameValue(x[i], y[i]))
+		}
+		return acc
+	case SliceV:
+		y, ok := b.(SliceV)
+		if !ok || len(x.E) != len(y.E) {
+			return P.False
+		}
+		if len(x.E) == 0 {
+			return P.Bool((x.E == nil) == (y.E == nil))
+		}
+		return P.Bool(&x.E[0] == &y.E[0])
+	case *ClosureV:
+		y, ok := b.(*ClosureV)
+		return P.Bool(ok && x == y)
+	case *MapV:
+		y, ok := b.(*MapV)
+		return P.Bool(ok && x == y)
+	case IfaceV:
+		y, ok := b.(IfaceV)
+		if !ok {
+			return P.False
+		}
+		if x.T == nil || y.T == nil {
+			return P.Bool(x.T == nil && y.T == nil)
+		}
+		if !types.Identical(x.T, y.T) {
+			return P.False
+		}
+		return in.sameValue(x.V, y.V)
+	}
+	return in.eqValue(a, b)
 }
 
 func (in *Interp) constStr(v Value, what string) string {
@@ -445,8 +524,26 @@ func (in *Interp) namedType(pkgPath, name string) types.Type {
 
 func miscStubs() {
 	retOpaque := func(in *Interp, fr *frame, fn *ssa.Function, a []Value) Value { return opaqueStr() }
-	for _, n := range []string{"fmt.Sprintf", "fmt.Sprint", "fmt.Sprintln"} {
+	for _, n := range []string{"fmt.Sprint", "fmt.Sprintln"} {
 		stubs[n] = retOpaque
+	}
+	// Sprintf: exact for a verb-free constant format without arguments (the errs.New("literal")
+	// idiom); otherwise opaque, known non-empty when the format starts with a literal character.
+	stubs["fmt.Sprintf"] = func(in *Interp, fr *frame, fn *ssa.Function, a []Value) Value {
+		f, ok := a[0].(StrV)
+		if !ok || f.Opaque || f.Sym != nil {
+			return opaqueStr()
+		}
+		nargs := -1
+		if len(a) > 1 {
+			if sl, ok := a[1].(SliceV); ok {
+				nargs = len(sl.E)
+			}
+		}
+		if nargs == 0 && !strings.Contains(f.S, "%") {
+			return StrV{S: f.S}
+		}
+		return StrV{Opaque: true, NonEmpty: len(f.S) > 0 && f.S[0] != '%'}
 	}
 	for _, n := range []string{"fmt.Printf", "fmt.Println", "fmt.Print", "fmt.Fprintf", "fmt.Fprintln", "fmt.Fprint"} {
 		stubs[n] = func(in *Interp, fr *frame, fn *ssa.Function, a []Value) Value {
